@@ -623,7 +623,27 @@ func GenLSpec(r *Rng, o LGenOpts) *LSpec {
 	nm := 1 + r.Intn(o.MaxModes)
 	s.Modes = append(s.Modes, &LMode{Name: ""})
 	for k := 1; k < nm; k++ {
-		s.Modes = append(s.Modes, &LMode{Name: fmt.Sprintf("%c%d", Pick(r, []rune{'M', 'm', 'Z'}), k)})
+		// names that differ only in case (M1/m1), that sort differently with and without case
+		// (Z3 < m2 bytewise), and names with '_' (sorts between the cases)
+		name := fmt.Sprintf("%c%d", Pick(r, []rune{'M', 'm', 'Z'}), k)
+		if k > 1 && r.Intn(3) == 0 {
+			prev := s.Modes[1+r.Intn(k-1)].Name
+			alt := strings.ToLower(prev)
+			if alt == prev {
+				alt = strings.ToUpper(prev)
+			}
+			if r.Intn(3) == 0 {
+				alt = prev + "_x"
+			}
+			taken := false
+			for _, m := range s.Modes {
+				taken = taken || m.Name == alt
+			}
+			if !taken {
+				name = alt
+			}
+		}
+		s.Modes = append(s.Modes, &LMode{Name: name})
 	}
 	nmac := r.Intn(3)
 	for i := 0; i < nmac; i++ {
